@@ -10,12 +10,14 @@ def _c(tech, claim, notdecided):
 
 
 CLAIMED = {
-    'C01': _c('static: value-set evaluation of the control byte + finite flag model extracted from MIR',
-              'Structural clauses of the LZMA2 chunk protocol decided for all 256 control values and all reachable reset-flag '
-              'states: reader classes (CTRL-SETS) and writer control bytes vs. the dictionary-reset flag in every reachable '
-              'flag state (FLAG-MODEL).',
-              'the LZMA symbol codec mirror (CODEC-MIRROR not built), match finder/window invariants, range coder carry, '
-              'optimal parser bookkeeping, 31-bit renormalisation: all depend on run-time values.'),
+    'C01': _c('static: encoder/decoder sibling cross-check by path enumeration with partial evaluation; value-set evaluation; finite flag model',
+              'CODEC-MIRROR: for every symbol kind (literal / matched literal, match x 3 slot classes, short rep, rep0-3, end '
+              'marker, first byte, 3 length classes) encoder and decoder use the same probability tables with the same index roles, '
+              'the same polarity on every decision bit, the same state update and the same rep-distance rotation (21 cases). '
+              'CTRL-SETS + FLAG-MODEL + READER-STATE: LZMA2 chunk protocol for all 256 control values and all reachable flag states.',
+              'match finder/window invariants (matches only inside the retained window), look-ahead bookkeeping, optimal-parser '
+              'indices, range-coder carry and flush length, 31-bit renormalisation, arithmetic offsets of symbols (len - 2, slot '
+              'bases): all depend on run-time values.'),
     'C02': _c('static: typestate path rule (edge dominance) + writer/reader table extraction from MIR switch arms',
               'BLOCK-TYPESTATE: the XZ block / LZIP member closer is only reachable where a unit is provably open; TABLE-INVERSE: '
               'filter ids, check ids, check sizes, filter constructors per variant, delta property and chain order agree '
